@@ -41,3 +41,23 @@ Example C04_example :
   fst (epochs_run (PUnbatch (PMap (FAdd 1) (PBatch 2 true (PSrc xs true)))) 2)
     = [map INat [1;2;3;4;5;6]; map INat [1;2;3;4;5;6]].
 Proof. vm_compute. split; reflexivity. Qed.
+
+(* ---- the interleaving level (ConcModel.v): Prefetcher is the identity under EVERY schedule ---- *)
+From PD Require ConcModel ConcInv ConcLive ConcOwner ConcSnap.
+
+(* For the Prefetcher (_SingleThreadedMapper), any prefetch_factor / snapshot_frequency / source (failing or not), any
+   consumer script incl. reset and reset(loaded state), along EVERY interleaving of the read thread and the consumer at
+   the granularity of their queue / semaphore / event / store primitives (timeouts included; the only exclusion is a
+   timeout of the join on an old read thread that is still alive, known finding D10): the items the current iterator has
+   handed to the consumer — fast-forward included — are exactly the source's items from the position it was started at,
+   in source order, each exactly once; and its state denotes the position right after them. *)
+Theorem C04_prefetcher_is_identity : forall (c : ConcModel.cfg), ConcModel.k_pm c = false ->
+  forall script sched, ConcOwner.jt_free c (ConcModel.init script) sched = true ->
+  forall g, ConcModel.cur (ConcModel.run c sched (ConcModel.init script)) = Some g ->
+  ConcModel.g_items g = firstn (ConcModel.g_recv g) (skipn (ConcModel.g_base g) (ConcModel.k_xs c)) /\
+  ConcModel.g_snap g + ConcModel.g_steps g = ConcModel.g_base g + ConcModel.g_recv g.
+Proof. exact ConcSnap.prefetcher_is_identity. Qed.
+Print Assumptions C04_prefetcher_is_identity.
+
+(* the ParallelMapper counterpart (every interleaving of reader, workers, sorter and consumer delivers map f, in order) is
+   the target; it is decided on every run by the scheduler-driven lockstep correspondence *)
